@@ -714,7 +714,14 @@ def r7(ctx):
               "the loader does not restore rows / cols / values into matching slots with current_index = number of stored values")
 
 
-RULE_FUNCS = [r1, r2, r3, r4, r5, r6, r7]
+def r_bsearch(ctx):
+    """binary searches need a sorted haystack (necessary condition; see common.binary_search_preconditions)"""
+    n = common.binary_search_preconditions(ctx, "R4", ("batchie.distance_calculation",))
+    if not n:
+        ctx.ok("R4", "binary-search::none", "no np.searchsorted in the anchored modules")
+
+
+RULE_FUNCS = [r1, r2, r3, r4, r5, r6, r7, r_bsearch]
 
 
 def run(ctx):
